@@ -302,6 +302,13 @@ def cmp(op, l, r):
         op, l, r = "<", r, l
     elif op == ">=":
         op, l, r = "<=", r, l
+    if op in ("in", "notin") and r.op == "dict" and r.a and all(kv.op == "tuple" and len(kv.a) == 2 and kv.a[0].op != "star" for kv in r.a):
+        r = tup([kv.a[0] for kv in r.a])  # membership in a dict display is membership in its keys
+    if op in ("in", "notin") and l.op != "const" and r.op in ("tuple", "list", "set") and 2 <= len(r.a) <= 4 and all(z.op == "const" and isinstance(z.a[0], (int, float)) and not isinstance(z.a[0], bool) for z in r.a):
+        # x not in (1, 2)  is  x != 1 and x != 2
+        if op == "in":
+            return boolop("or", [cmp("==", l, z) for z in r.a])
+        return boolop("and", [cmp("!=", l, z) for z in r.a])
     if op in ("<", "<=", "==", "!=") and l.op == "const" and r.op == "const":
         x, y = l.a[0], r.a[0]
         num = lambda v: isinstance(v, (int, float)) and not isinstance(v, bool) and v == v
@@ -386,6 +393,9 @@ def call(fn, args=(), kw=()):
         return cmp(CMP_FUNCS[name], args[0], args[1])
     if name == "builtins.len" and len(args) == 1 and not kw and args[0].op in ("tuple", "list") and not any(z.op == "star" for z in args[0].a):
         return const(len(args[0].a))  # the length of a display
+    if name in ("builtins.tuple", "builtins.list") and len(args) == 1 and not kw and args[0].op in ("tuple", "list") and not any(z.op == "star" for z in args[0].a):
+        # tuple([a, b]) is (a, b); list((a, b)) is [a, b]
+        return tup(args[0].a) if name == "builtins.tuple" else lst(args[0].a)
     if name == "builtins.list" and len(args) == 1 and not kw and args[0].op == "comp" and args[0].a[0] in ("gen", "list"):
         # list(E for x in it) is [E for x in it]
         return mk("comp", "list", *args[0].a[1:])
